@@ -71,16 +71,7 @@ def run(ctx, rep):
                   what=f"all {len(adaptors)} adaptors between src.entries() and TreeArchiver::add preserve order: {adaptors}" if not bad else
                        f"the archive pipeline contains adaptors that do not preserve order (or are not on the allow-list): {bad}; tree entries would be added in scheduling order")
     # ---- C13.b -------------------------------------------------------------------------------------
-    for fn in ("Packer::<BE>::finalize", "Actor::finalize"):
-        F = prog.find1(rf"^rustic_core::blob::packer::{re.escape(fn)}$")
-        rc = [(bb, t) for bb, t in F.calls() if "callee" in t and re.search(r"crossbeam_channel::Receiver::<T>::recv$", callee(t))]
-        ok = len(rc) == 1 and rc[0][0] in flow.backward_slice(F, [0])["call_sites"]
-        fld = flow.place_path(F, op_place(rc[0][1]["args"][0])) if rc else None
-        rep.check("C13.b", f"joined/{fn.split('::')[0]}", ok and bool(fld) and "finish" in fld[1], where=F.loc(), what=f"{fn} blocks on the worker's finish channel and returns the received status")
-        dr = [bb for bb, t in enumerate([F.term(i) for i in range(len(F.blocks))]) if t["k"] == "drop" and "sender" in place_fields(t["place"])] + \
-             [bb for bb, t in F.calls() if "callee" in t and callee(t).endswith("std::mem::drop") and "sender" in flow.backward_slice(F, op_place(t["args"][0]))["fields"]]
-        okd = bool(dr) and bool(rc) and all(C.can_reach(F, d, rc[0][0]) or d == rc[0][0] for d in dr)
-        rep.check("C13.b", f"channel-closed-first/{fn.split('::')[0]}", okd, where=F.loc(), what=f"{fn} closes the input channel before waiting (the worker can terminate)")
+    joined(ctx, rep, "C13.b")
     from rules import C03, C07
     from rules.C10 import borrow
     n = borrow(rep, ctx, C03, lambda o: o.rule == "R-ORDER" and re.search(r"/R-ORDER/(01|02)/", o.key), "C13.b")
@@ -99,3 +90,18 @@ def run(ctx, rep):
                 ads.append(callee_decl(t))
     bad = [a for a in ads if UNORDERED.search(a) or not (ORDERED.search(a) or re.search(r"Result::<T, E>::|Option::<T>::", a))]
     rep.check("C13.d", "packer-pipeline-adaptors", len(ads) >= 5 and not bad, where=PN.loc(), what=f"the packer pipeline uses only order-preserving adaptors and skip-filters ({len(ads)} adaptor calls)" if not bad else f"unexpected adaptors in the packer pipeline: {bad}")
+
+
+def joined(ctx, rep, rule):
+    """Packer::finalize / Actor::finalize close the input channel, wait for the worker's status and return it"""
+    prog = ctx.prog
+    for fn in ("Packer::<BE>::finalize", "Actor::finalize"):
+        F = prog.find1(rf"^rustic_core::blob::packer::{re.escape(fn)}$")
+        rc = [(bb, t) for bb, t in F.calls() if "callee" in t and re.search(r"crossbeam_channel::Receiver::<T>::recv$", callee(t))]
+        ok = len(rc) == 1 and rc[0][0] in flow.backward_slice(F, [0])["call_sites"]
+        fld = flow.place_path(F, op_place(rc[0][1]["args"][0])) if rc else None
+        rep.check(rule, f"joined/{fn.split('::')[0]}", ok and bool(fld) and "finish" in fld[1], where=F.loc(), what=f"{fn} blocks on the worker's finish channel and returns the received status")
+        dr = [bb for bb, t in enumerate([F.term(i) for i in range(len(F.blocks))]) if t["k"] == "drop" and "sender" in place_fields(t["place"])] + \
+             [bb for bb, t in F.calls() if "callee" in t and callee(t).endswith("std::mem::drop") and "sender" in flow.backward_slice(F, op_place(t["args"][0]))["fields"]]
+        okd = bool(dr) and bool(rc) and all(C.can_reach(F, d, rc[0][0]) or d == rc[0][0] for d in dr)
+        rep.check(rule, f"channel-closed-first/{fn.split('::')[0]}", okd, where=F.loc(), what=f"{fn} closes the input channel before waiting (the worker can terminate)")
